@@ -271,3 +271,102 @@ def timeout_derive(sc: dict, t: float, rng: random.Random):
                 op[5] = {'timeout': t}
                 break
         yield sc
+
+
+def expect_base(rng: random.Random, i: int) -> dict:
+    """Event streams on 1-2 buses with simple (non-dispatching) handlers, 1-4 concurrent expect() calls
+    with overlapping filters (class / name patterns, include / exclude / deprecated predicate, raising predicates)."""
+    nb = rng.choice([1, 1, 2])
+    buses = [{'name': f'B{k}', 'par': rng.random() < 0.25, 'lazy': False, 'hist': None} for k in range(nb)]
+    hs = []
+    for b in range(nb):
+        for t in range(3):
+            for _ in range(rng.choice([0, 1, 1, 2])):
+                hs.append({'bus': b, 'pat': rng.choice([t, f'E{t}', '*']) if rng.random() < 0.9 else '*', 'kind': rng.choice(['async', 'async', 'sync', 'amethod']),
+                           'prog': [['sleep', rng.choice([0, 0.01, 0.05, 0.1, 0.3])]] if rng.random() < 0.7 else []})
+    actors = []
+    for _ in range(rng.randint(1, 2)):
+        ops = []
+        for _k in range(rng.randint(3, 9)):
+            ops.append(['disp', rng.randrange(3), rng.randrange(nb), rng.choice(['fire', 'fire', 'await']), rng.choice([0, 0.01, 0.05, 0.1, 0.3]), {}])
+        actors.append(ops)
+    n_exp = rng.randint(1, 4)
+
+    def pred():
+        x = rng.random()
+        if x < 0.45:
+            return None
+        if x < 0.8:
+            m = rng.choice([2, 3])
+            return ['mod', m, rng.randrange(m)]
+        if x < 0.9:
+            m = rng.choice([2, 3, 4])
+            return ['raise', m, rng.randrange(m)]
+        return rng.choice([['true'], ['false']])
+    for _ in range(n_exp):
+        t = rng.randrange(3)
+        spec = {'type': t if rng.random() < 0.6 else f'E{t}', 'include': pred(), 'exclude': pred() if rng.random() < 0.5 else None,
+                'predicate': pred() if rng.random() < 0.3 else None, 'timeout': rng.choice([0.05, 0.2, 0.5, 1.0, 3.0])}
+        actors.append([['sleep', rng.choice([0, 0, 0.02, 0.1, 0.4])], ['expect', rng.randrange(nb), spec]])
+    return {'seed': rng.randrange(1 << 30), 'buses': buses, 'fwd': [], 'handlers': hs, 'actors': actors, 'n_exp': n_exp, 'W': 4.0}
+
+
+def expect_random(rng: random.Random, i: int) -> dict:
+    sc = expect_base(rng, i)
+    if rng.random() < 0.5:
+        sc['loop'] = {'jitter': 1e-7}
+    return sc
+
+
+def expect_cancel_derive(sc: dict, t: float, rng: random.Random):
+    n_exp = sc.get('n_exp', 1)
+    victim = len(sc['actors']) - 1 - rng.randrange(n_exp)
+    sc['actors'] = sc['actors'] + [[['sleep', t], ['cancel_actor', victim]]]
+    yield sc
+
+
+def rand_payload(rng: random.Random, depth: int = 0):
+    """JSON-round-trippable payloads: nested containers, unicode incl. astral plane, aware / naive datetimes.
+    Excluded: lone surrogates, NaN / inf (JSON cannot round-trip them)."""
+    def leaf():
+        x = rng.random()
+        if x < 0.2:
+            return rng.choice([0, 1, -1, 2**53, -2**40, 12345678901234567890])
+        if x < 0.3:
+            return rng.choice([0.5, -1.25, 1e100, 1e-7, 3.141592653589793])
+        if x < 0.35:
+            return rng.choice([True, False, None])
+        if x < 0.75:
+            return rng.choice(['', 'a', 'hello world', 'ü-ß-é', '日本語', '𝄞 clef', 'emoji 😀', 'quote " backslash \\ newline \n tab \t', '\u0000nul', 'a' * 200, '</script>', '{"not": "json"}'])
+        if x < 0.88:
+            return {'$dt': rng.choice(['2024-01-02T03:04:05+00:00', '1999-12-31T23:59:59.999999+05:30', '2030-06-15T12:00:00', '2024-02-29T00:00:00.000001-08:00'])}
+        return rng.randint(-1000, 1000)
+
+    def val(d):
+        x = rng.random()
+        if d >= 3 or x < 0.55:
+            return leaf()
+        if x < 0.78:
+            return [val(d + 1) for _ in range(rng.randint(0, 4))]
+        return {rng.choice(['k', 'key', 'ключ', 'a b', 'x.y', '0', 'nested']) + str(j): val(d + 1) for j in range(rng.randint(0, 3))}
+    return {f'p{j}_{rng.choice(["data", "msg", "when", "cfg", "items"])}': val(0) for j in range(rng.randint(0, 4))}
+
+
+def wal_scenario(rng: random.Random, i: int) -> dict:
+    c = cfg(nb=(1, 3), p_fwd=0.4, levels=4, p_idle=0.0, p_par=0.15, p_lazy=0.2, jitter=False)
+    sc = random_scenario(rng, c)
+    kinds = [True, True, True, 'nested', 'devfull', 'parentfile', 'isdir', None]
+    any_wal = False
+    for b in sc['buses']:
+        b['wal'] = rng.choice(kinds)
+        any_wal = any_wal or bool(b['wal'])
+    if not any_wal:
+        sc['buses'][0]['wal'] = True
+    for a in sc['actors']:
+        for op in a:
+            if op[0] == 'disp':
+                op[5] = dict(op[5] or {}, payload=rand_payload(rng))
+    if rng.random() < 0.35:
+        n = sorted(rng.sample(range(1, 12), rng.randint(1, 3)))
+        sc['wal_fault'] = {'kind': rng.choice(['open', 'write']), 'n': n}
+    return sc
